@@ -1,5 +1,6 @@
 import CacheVerif.Proofs.CacheLedger
 import CacheVerif.Proofs.TableRefine
+import CacheVerif.Proofs.ProtoData
 /-!
 # C08 — Size / Count is exact whenever no modification is in flight (sequential part)
 
@@ -10,6 +11,7 @@ Table layer (`Model.Table`, both variants): between calls the striped counter re
 number of bindings of the reference map, which is the number of pairs a full `Range` visits.
 -/
 set_option linter.unusedSectionVars false
+/-! (concurrent part at the end of the file: the counter invariant of M4a) -/
 namespace Props.C08
 open Spec Model Model.Cache Proofs.CacheLedger
 
@@ -89,5 +91,25 @@ example :
         (.store 5 50)).1 (.store 37 51)).1
     (Model.Table.step Model.Table.mapOfVariant exEnv m .size).2.out = .size 2 ∧
     (Model.Table.walk (fun _ _ => true) m.tbl.entries).length = 2 := by decide
+
+/-! ### concurrent histories (M4a): the striped counter, per table generation -/
+section conc
+open Model.Proto Proofs.ProtoData
+variable {K V : Type} [DecidableEq K] (p : Params K)
+
+/-- **counter invariant**, every reachable state, every table generation (also the one under construction): the
+counter plus the deltas of the writers that have committed but not yet called `addSize` is the number of entries -/
+theorem C08_counter (hmin : 0 < p.minLen) (s : Model.Proto.St K V) (h : Reach p s) (T : Nat) (hT : T < s.g.ntables)
+    (N : Nat) (hN : ∀ u : Nat, u ≥ N → (s.l u).pc = .idle) :
+    (s.g.tables T).size + pendSum s T N = ((s.g.tables T).data.length : Int) :=
+  counter_invariant p hmin s h T hT N hN
+
+/-- **Size is exact whenever no call is in flight**, whatever history of concurrent inserts, deletes, grows, shrinks
+and clears preceded -/
+theorem C08_quiescent (hmin : 0 < p.minLen) (s : Model.Proto.St K V) (h : Reach p s)
+    (hq : ∀ u, (s.l u).pc = .idle) : (s.g.tables s.g.cur).size = ((s.g.tables s.g.cur).data.length : Int) :=
+  size_exact_when_quiescent p hmin s h hq
+
+end conc
 
 end Props.C08
